@@ -299,6 +299,9 @@ func checkModel(m *ref.SpecModel, src string) (rejected bool, err error) {
 	if len(bad) > 0 && !invalid {
 		return false, fmt.Errorf("the pattern of %v is invalid, but neither spec.Parse nor DFA() reports it (DFA error: %v)\nspecification:\n%s", keys(bad), derr, src)
 	}
+	if len(bad) == 0 && derr != nil && !invalid && !strings.Contains(strings.ToLower(derr.Error()), "conflict") {
+		return false, fmt.Errorf("every pattern of the specification is valid, but DFA() reports: %v\nspecification:\n%s", derr, src)
+	}
 	if len(bad) == 0 && invalid {
 		return false, fmt.Errorf("DFA() reports an invalid pattern although every pattern is valid: %v\nspecification:\n%s", derr, src)
 	}
@@ -454,7 +457,7 @@ func seed(t *rapid.T, m *ref.SpecModel, kind string, i int) {
 		}
 	case "pattern":
 		name := fmt.Sprintf("BP%d", i)
-		insertAt(t, m, &ref.Decl{Kind: "token", Name: name, TokKind: "regex", Text: rapid.SampledFrom([]string{"a(b", "x(", "(a|b", "[a-z](+", "a)", "]x", "=>)", "end}", "x]y", "a{2", "[a-z"}).Draw(t, "bad") + fmt.Sprint(i), Semi: true}, "pos")
+		insertAt(t, m, &ref.Decl{Kind: "token", Name: name, TokKind: "regex", Text: rapid.SampledFrom([]string{"a(b", "x(", "(a|b", "[a-z](+", "a)", "]x", "=>)", "end}", "x]y", "a{2", "[a-z", "a{2,1})", "[z-a", "[9-0](", "b{3,2}[c"}).Draw(t, "bad") + fmt.Sprint(i), Semi: true}, "pos")
 		if rapid.Bool().Draw(t, "used") {
 			appendAlt(firstRule(m), &ref.RHS{K: "tok", Name: name})
 		}
